@@ -11,7 +11,7 @@ META = {
                    'from_bytes_le(unsealed reply read from the link) and from_bytes_le(public key of the peer certificate of the '
                    'same link) + 1 (R01.1/R01.2); error exits perform no transport write (R01.3/R01.4); gss_unwrapex returns Ok '
                    'only on the equal edge of checksum == HMAC(verify_key, SeqNum || plaintext)[0..8] (R01.5); credential '
-                   'accessors have no other callers (R01.6). The cryptographic strength of HMAC/RC4 is not decided.',
+                   'accessors have no other callers (R01.6); the CredSSP replies are decoded with the DER parser, never the BER one (R01.7). The cryptographic strength of HMAC/RC4 is not decided.',
     'assumptions': ['num_bigint comparison/addition and from_bytes_le are exact (crate contract)',
                     'dropping the TLS stream on an error path writes no application data',
                     'HMAC-MD5/RC4 are not evaluated: "only the honest reply passes" rests on C16'],
@@ -192,6 +192,24 @@ def run(ctx):
         ctx.check(callers and callers <= okset, 'R01.6', 'callers:%s' % callee,
                   '%s is called only from %s' % (callee.rsplit('::', 1)[-1], sorted(okset)), '',
                   '%s has unexpected callers: %s' % (callee, sorted(callers - okset)))
+
+    # ---- R01.7 the CredSSP replies are parsed as DER: a re-framed (BER: indefinite length, segmented octet string, long-form short length)
+    #      reply is "malformed encoding" and must be refused like any other reply ------------------------------------------------------------
+    n_der = 0
+    for fn in ('nla::cssp::read_ts_validate', 'nla::cssp::read_ts_server_challenge'):
+        rb = ctx.body(fn)
+        reach = P.reachable_bodies([fn])
+        names = set()
+        for k_, bd in reach.items():
+            if k_.startswith('nla::cssp::') or k_.startswith('nla::asn1::from_'):
+                names |= {c.callee for c in bd.calls}
+        der = [n for n in names if re.search(r'yasna::parse_der$|nla::asn1::from_der$', n)]
+        ber = [n for n in names if re.search(r'yasna::parse_ber(_general)?$|nla::asn1::from_ber$', n)]
+        n_der += len(der)
+        ctx.check(bool(der) and not ber, 'R01.7', 'der:%s' % fn.rsplit('::', 1)[-1], '%s decodes its input with the DER parser' % fn.rsplit('::', 1)[-1], rb.where(),
+                  '%s decodes the server reply with a BER parser (%s): encodings that are not DER (indefinite length, constructed octet strings, non-minimal '
+                  'lengths) are accepted although the property requires every malformed encoding to be refused' % (fn, [n.rsplit('::', 1)[-1] for n in ber] or 'no DER parser found'))
+    ctx.floor('R01.7', 'DER parser calls in the CredSSP readers', n_der, 2)
 
 
 def callee_key(P, call):
